@@ -125,7 +125,7 @@ def run_case(ctx, g, rng):
             su = call(c.standardize_uri, u)
             if ea[0] != "ret" or ea[1] is None or u not in ea[1]:
                 violation(["C03"], "round-trip", "uri-not-among-expand_all-of-its-curie", uri=u, curie=curie, expand_all=ea, **w)
-            if repr(e) != repr(su) or e[0] != "ret" or e[1] is None:
+            if probe.okey(e) != probe.okey(su) or e[0] != "ret" or e[1] is None:
                 violation(["C03"], "round-trip", "expand-of-compress-differs-from-standardize_uri", uri=u, curie=curie, expand=e, standardize_uri=su, **w)
             m = sp.uri_matches(u)
             owner = sp.uri_owner(u)
@@ -138,7 +138,7 @@ def run_case(ctx, g, rng):
                 probe.evaluated("bijection-on-prefix-free")
                 back = call(c.compress, e[1]) if e[0] == "ret" and e[1] is not None else None
                 sc = call(c.standardize_curie, curie)
-                if back is None or repr(back) != repr(sc) or back[1] is None:
+                if back is None or probe.okey(back) != probe.okey(sc) or back[1] is None:
                     violation(["C03"], "bijection-on-prefix-free", "compress-of-expand-differs-from-standardize_curie",
                               uri=u, curie=curie, compress_expand=back, standardize_curie=sc, **w)
             mcls = "ghost" if u0 in ghost_u else "multi" if len(m) >= 2 else "canonical" if canonical else "synonym"
@@ -159,7 +159,7 @@ def run_case(ctx, g, rng):
                         continue
                     probe.evaluated("bijection-on-prefix-free")
                     back, sc = call(c.compress, e[1]), call(c.standardize_curie, curie)
-                    if repr(back) != repr(sc) or back[1] is None:
+                    if probe.okey(back) != probe.okey(sc) or back[1] is None:
                         violation(["C03"], "bijection-on-prefix-free", "compress-of-expand-differs-from-standardize_curie",
                                   curie=curie, expanded=e[1], compress_expand=back, standardize_curie=sc, **w)
                     e2 = call(c.expand, back[1]) if back[0] == "ret" and back[1] else None
@@ -173,7 +173,7 @@ def run_case(ctx, g, rng):
             if cu[0] == "ret" and cu[1] is not None:
                 probe.evaluated("round-trip")
                 ea, e, su = call(c.expand_all, cu[1]), call(c.expand, cu[1]), call(c.standardize_uri, x)
-                if ea[0] != "ret" or ea[1] is None or x not in ea[1] or repr(e) != repr(su):
+                if ea[0] != "ret" or ea[1] is None or x not in ea[1] or probe.okey(e) != probe.okey(su):
                     violation(["C03"], "round-trip", "uri-not-among-expand_all-of-its-curie", uri=x, curie=cu[1], expand_all=ea, expand=e, standardize_uri=su,
                               note="asked after the converter was used as an input of chain / get_subconverter", **w)
             e = call(c.expand, x + d + "1")
